@@ -19,13 +19,14 @@ NewClient(lg, v111, http) ==
     [alive |-> TRUE, gone |-> FALSE, lg |-> lg, v111 |-> v111, http |-> http,
      direct |-> <<>>, res |-> <<>>, exempt |-> {}, rn |-> <<>>,
      pend |-> <<>>, nsub |-> <<>>, per |-> <<>>, grant |-> <<>>,
-     tok |-> "nil", tokq |-> <<>>, dispW |-> {}, unsent |-> {},
-     recheck |-> <<>>, owed |-> <<>>, stale |-> {}]
+     tok |-> "nil", tokq |-> <<>>, dispW |-> <<>>, unsent |-> {},
+     recheck |-> <<>>, owed |-> <<>>, stale |-> {}, intok |-> 0, trigc |-> <<>>,
+     gotByGet |-> <<>>, taintG |-> FALSE, taintU |-> FALSE, dropped |-> <<>>, hUnsub |-> {}]
 
 InitO(tr) ==
     [tr |-> tr, conns |-> <<>>, ann |-> <<>>, norm |-> <<>>, keyn |-> <<>>,
      mqsubs |-> {}, mqpend |-> <<>>, handed |-> <<>>, window |-> {},
-     refetch |-> <<>>, stopping |-> FALSE, final |-> FALSE]
+     refetch |-> <<>>, ctrig |-> <<>>, stopping |-> FALSE, final |-> FALSE]
 
 V(p, why, kf) == [p |-> p, tr |-> o.tr, l |-> l, why |-> why, kf |-> kf]
 
@@ -51,24 +52,60 @@ Collect(cl, res2, direct2) ==
     LET H2 == Held(direct2, res2)
         oldH == Held(cl.direct, cl.res)
         per2 == [r \in H2 |-> IF r \in DOMAIN cl.per /\ r \in oldH THEN cl.per[r] ELSE NewPer(l)]
-    IN [cl EXCEPT !.res = Restrict(res2, H2), !.direct = direct2, !.exempt = cl.exempt \cap H2,
-                  !.per = per2, !.stale = cl.stale \cap H2]
+    IN [cl EXCEPT !.res = RestrictTo(res2, H2), !.direct = direct2, !.exempt = cl.exempt \cap H2,
+                  !.per = per2, !.stale = cl.stale \cap H2,
+                  !.dropped = [x \in oldH \ H2 |-> l] @@ [x \in DOMAIN @ \ H2 |-> @[x]]]
 
 Dangling(res2, direct2) == {r \in Held(direct2, res2) : r \notin DOMAIN res2}
 
-DanglingViol(cl, res2, direct2, what) ==
+(* Finding KF-G: a get response delivered these resources while the request   *)
+(* now answered was outstanding, and the gateway considers them sent.          *)
+ByGet(cl, d, reqL) == \A x \in d : Get(cl.gotByGet, x, 0) > reqL
+
+(* Finding KF-W: the client dropped these resources (last reference removed *)
+(* by an event) while the request now answered was outstanding; the request's *)
+(* direct count, taken at request time, kept them in state sent.              *)
+ByDrop(cl, d, reqL) == \A x \in d : Get(cl.dropped, x, 0) > reqL
+
+KfOf(cl, d, reqL) ==
+    IF cl.taintU THEN "KF-U"
+    ELSE IF cl.taintG \/ (d # {} /\ ByGet(cl, d, reqL)) THEN "KF-G"
+    ELSE IF d # {} /\ ByDrop(cl, d, reqL) THEN "KF-W"
+    ELSE ""
+
+DanglingViol(cl, res2, direct2, what, reqL) ==
     LET d == Dangling(res2, direct2)
     IN IF d = {} THEN {}
-       ELSE {V("C02", what \o ": dangling reference, no data for " \o ToString(d),
-               IF d \cap cl.unsent # {} THEN "KF-U" ELSE "")}
+       ELSE {V("C02", what \o ": dangling reference, no data for " \o ToString(d), KfOf(cl, d, reqL))}
+
+TaintG(cl, res2, direct2, reqL) ==
+    LET d == Dangling(res2, direct2)
+    IN cl.taintG \/ (d # {} /\ ~cl.taintU /\ ByGet(cl, d, reqL))
 
 -----------------------------------------------------------------------------
+(* Access ledger.  A grant is the last access answer for (connection, key): *)
+(* l = line it was handed over, inv = line at which a trigger that reached   *)
+(* the gateway after l was processed by the connection (0 = still valid),    *)
+(* dis = line at which the subscription it belonged to was disposed.         *)
+NoGrant == [get |-> FALSE, call |-> "", calllist |-> <<>>, ok |-> FALSE, l |-> 0, tok |-> "", inv |-> 0, dis |-> 0, none |-> TRUE]
+GrantOf(cl, k) == Get(cl.grant, k, NoGrant)
+
+(* "ok": usable; "kf": the request was outstanding when the trigger was       *)
+(* processed (finding KF-R: the verdict is checked once, at request time);    *)
+(* "bad": no usable verdict.                                                  *)
+GrantState(g, reqL, allowed) ==
+    IF g.none THEN "bad"
+    ELSE IF g.dis > 0 /\ reqL > g.dis THEN "bad"
+    ELSE IF ~g.ok \/ ~allowed THEN "bad"
+    ELSE IF g.inv > 0 THEN (IF reqL < g.inv THEN "kf" ELSE "bad")
+    ELSE "ok"
+
 (* C04: a response that hands rid to c as a root needs a valid get grant.  *)
-GrantViol(cl, rid, what) ==
-    LET k == KeyOf(cl, rid)
-        g == Get(cl.grant, k, [get |-> FALSE, valid |-> FALSE, ok |-> FALSE, call |-> "", calllist |-> <<>>, tok |-> "", l |-> 0])
-    IN IF g.ok /\ g.get /\ g.valid THEN {}
-       ELSE {V("C04", what \o " for " \o rid \o " without a valid get grant " \o ToString(g), "")}
+GrantViol(cl, rid, reqL, what) ==
+    LET g == GrantOf(cl, KeyOf(cl, rid))
+        st == GrantState(g, reqL, g.get)
+    IN IF st = "ok" THEN {}
+       ELSE {V("C04", what \o " for " \o rid \o " without a valid get grant " \o ToString(g), IF st = "kf" THEN "KF-R" ELSE "")}
 
 -----------------------------------------------------------------------------
 H_open(r) ==
@@ -82,7 +119,7 @@ H_close(r) ==
 H_creq(r) ==
     IF r.c \notin DOMAIN o.conns \/ ~o.conns[r.c].alive THEN Res(o, {})
     ELSE LET cl == o.conns[r.c]
-             cl2 == [cl EXCEPT !.pend = Put(cl.pend, r.id, [m |-> r.m, rid |-> r.rid, key |-> r.key, count |-> r.count, l |-> l]),
+             cl2 == [cl EXCEPT !.pend = Put(cl.pend, r.id, [m |-> r.m, rid |-> r.rid, key |-> r.key, count |-> r.count, action |-> r.action, l |-> l]),
                                !.rn = Put(cl.rn, r.rid, [n |-> r.n, q |-> r.q, key |-> r.key])]
          IN Res(SetConn(o, r.c, cl2), {})
 
@@ -99,7 +136,9 @@ H_cres(r) ==
     THEN Res(o, leakV \cup {V("C07", "response for id " \o ToString(r.id) \o " that is not outstanding (unknown or duplicate)", "")})
     ELSE
     LET req == cl0.pend[r.id]
-        cl1 == [cl0 EXCEPT !.pend = Del(cl0.pend, r.id), !.rn = r.rn @@ cl0.rn]
+        isGet == cl0.pend[r.id].m = "get"
+        cl1 == [cl0 EXCEPT !.pend = Del(cl0.pend, r.id), !.rn = r.rn @@ cl0.rn,
+                           !.gotByGet = IF isGet THEN @ ELSE [x \in DOMAIN @ \ DOMAIN SetRes(r.set) |-> @[x]]]
         shapeV == IF r.shape THEN {} ELSE {V("C07", "error response without string code/message", "")}
         res1 == SetRes(r.set) @@ cl1.res
         nsubOf(rid) == Get(cl1.nsub, rid, 0)
@@ -107,23 +146,27 @@ H_cres(r) ==
     IN
     CASE req.m \in {"subscribe"} /\ r.ok ->
             LET d2 == Put(cl1.direct, req.rid, dirOf(req.rid) + 1)
-                cl2 == [Collect(cl1, res1, d2) EXCEPT !.nsub = Put(cl1.nsub, req.rid, nsubOf(req.rid) + 1)]
+                cl2 == [Collect(cl1, res1, d2) EXCEPT !.nsub = Put(cl1.nsub, req.rid, nsubOf(req.rid) + 1),
+                                                      !.taintG = TaintG(cl1, res1, d2, req.l)]
             IN Res(SetConn(o, r.c, cl2),
-                   leakV \cup shapeV \cup DanglingViol(cl1, res1, d2, "subscribe response") \cup GrantViol(cl1, req.rid, "subscribe data"))
+                   leakV \cup shapeV \cup DanglingViol(cl1, res1, d2, "subscribe response", req.l) \cup GrantViol(cl1, req.rid, req.l, "subscribe data"))
       [] req.m = "get" /\ r.ok ->
             LET getH == Closure({req.rid}, res1)
                 miss == {x \in getH : x \notin DOMAIN res1}
-                cl2 == Collect(cl1, res1, cl1.direct)
+                kfm == KfOf(cl1, miss, req.l)
+                cl2 == [Collect(cl1, res1, cl1.direct) EXCEPT !.gotByGet = [x \in DOMAIN SetRes(r.set) |-> l] @@ @,
+                                                              !.taintG = @ \/ (miss # {} /\ kfm = "KF-G")]
             IN Res(SetConn(o, r.c, cl2),
-                   leakV \cup shapeV \cup GrantViol(cl1, req.rid, "get data")
-                   \cup (IF miss = {} THEN {} ELSE {V("C02", "get response leaves references without data: " \o ToString(miss), "")}))
+                   leakV \cup shapeV \cup GrantViol(cl1, req.rid, req.l, "get data")
+                   \cup (IF miss = {} THEN {} ELSE {V("C02", "get response leaves references without data: " \o ToString(miss), kfm)}))
       [] req.m = "unsubscribe" ->
             LET n == nsubOf(req.rid)
                 takers == PendingTakers(cl1, req.rid, r.id)
                 kf == IF takers # {} THEN "KF-H" ELSE ""
             IN IF r.ok
                THEN LET d2 == Put(cl1.direct, req.rid, MaxI(0, dirOf(req.rid) - req.count))
-                        cl2 == [Collect(cl1, res1, d2) EXCEPT !.nsub = Put(cl1.nsub, req.rid, MaxI(0, n - req.count))]
+                        cl2 == [Collect(cl1, res1, d2) EXCEPT !.nsub = Put(cl1.nsub, req.rid, MaxI(0, n - req.count)),
+                                                              !.hUnsub = IF req.count > n /\ takers # {} THEN @ \cup {req.rid} ELSE @]
                     IN Res(SetConn(o, r.c, cl2),
                            leakV \cup (IF req.count >= 1 /\ req.count <= n THEN {}
                                       ELSE {V("C08", "unsubscribe count " \o ToString(req.count) \o " succeeded with " \o ToString(n) \o " confirmed direct subscriptions on " \o req.rid, kf)}))
@@ -135,12 +178,16 @@ H_cres(r) ==
                               THEN IF r.code = "system.noSubscription" THEN {} ELSE {V("C08", "unsubscribe beyond count answered with " \o r.code, "")}
                               ELSE {V("C08", "unsubscribe count " \o ToString(req.count) \o " failed (" \o r.code \o ") with " \o ToString(n) \o " confirmed on " \o req.rid, kf)}))
       [] req.m \in {"call", "auth", "new"} /\ r.ok /\ r.rrid # "" ->
-            LET noSub == (cl1.v111 /\ req.m \in {"call", "auth"}) \/ r.rrid \in DOMAIN r.set.errors
+            LET gr == GrantOf(cl1, KeyOf(cl1, r.rrid))
+                \* an error in place of the resource because access was refused leaves no subscription (C04);
+                \* a resource that failed to load is still a resource response and stays subscribed (C08)
+                noSub == (cl1.v111 /\ req.m \in {"call", "auth"}) \/ (r.rrid \in DOMAIN r.set.errors /\ ~(gr.ok /\ gr.get))
                 d2 == IF noSub THEN cl1.direct ELSE Put(cl1.direct, r.rrid, dirOf(r.rrid) + 1)
-                cl2 == [Collect(cl1, res1, d2) EXCEPT !.nsub = IF noSub THEN cl1.nsub ELSE Put(cl1.nsub, r.rrid, nsubOf(r.rrid) + 1)]
+                cl2 == [Collect(cl1, res1, d2) EXCEPT !.nsub = IF noSub THEN cl1.nsub ELSE Put(cl1.nsub, r.rrid, nsubOf(r.rrid) + 1),
+                                                      !.taintG = TaintG(cl1, res1, d2, req.l)]
             IN Res(SetConn(o, r.c, cl2),
-                   leakV \cup shapeV \cup DanglingViol(cl1, res1, d2, "resource response")
-                   \cup (IF noSub THEN {} ELSE GrantViol(cl1, r.rrid, "resource response data")))
+                   leakV \cup shapeV \cup DanglingViol(cl1, res1, d2, "resource response", req.l)
+                   \cup (IF noSub THEN {} ELSE GrantViol(cl1, r.rrid, req.l, "resource response data")))
       [] OTHER -> Res(SetConn(o, r.c, cl1), leakV \cup shapeV)
 
 -----------------------------------------------------------------------------
@@ -159,11 +206,11 @@ SeqViol(cl, r) ==
              ELSE {})
             \cup
             (IF p.last > 0 /\ r.seq > p.last /\ Between(n, p.last, r.seq) # {}
-             THEN {V("C03", "gap on " \o r.rid \o ": events " \o ToString({h.seq : h \in Between(n, p.last, r.seq)}) \o " skipped", IF r.rid \in cl.unsent THEN "KF-U" ELSE "")}
+             THEN {V("C03", "gap on " \o r.rid \o ": events " \o ToString({h.seq : h \in Between(n, p.last, r.seq)}) \o " skipped", IF cl.taintU THEN "KF-U" ELSE IF cl.taintG THEN "KF-G" ELSE "")}
              ELSE {})
             \cup
             (IF p.last = 0 /\ {h \in Between(n, 0, r.seq) : h.l > p.start} # {}
-             THEN {V("C03", "gap on " \o r.rid \o ": events handed over after the hand-off were skipped before seq " \o ToString(r.seq), IF r.rid \in cl.unsent THEN "KF-U" ELSE "")}
+             THEN {V("C03", "gap on " \o r.rid \o ": events handed over after the hand-off were skipped before seq " \o ToString(r.seq), IF cl.taintU THEN "KF-U" ELSE IF cl.taintG THEN "KF-G" ELSE "")}
              ELSE {})
 
 SeqUpdate(cl, r) ==
@@ -181,10 +228,13 @@ RecheckViol(cl, r) ==
 
 H_cev(r) ==
     LET cl0 == o.conns[r.c]
-        cl1 == [cl0 EXCEPT !.rn = r.rn @@ cl0.rn]
+        cl1 == [cl0 EXCEPT !.rn = r.rn @@ cl0.rn, !.gotByGet = [x \in DOMAIN @ \ DOMAIN SetRes(r.set) |-> @[x]]]
         leakV == IF r.leak = <<>> THEN {} ELSE {V("C10", "connection id in event frame", "")}
         H == Held(cl1.direct, cl1.res)
-        kfU == IF r.rid \in cl1.unsent THEN "KF-U" ELSE ""
+        kfU == IF cl1.taintU THEN "KF-U"
+               ELSE IF cl1.taintG \/ r.rid \in DOMAIN cl1.gotByGet THEN "KF-G"
+               ELSE IF \E i \in DOMAIN cl1.pend : cl1.pend[i].rid = r.rid /\ cl1.pend[i].l < Get(cl1.dropped, r.rid, 0) THEN "KF-W"
+               ELSE ""
         strayV == IF r.rid \in H \/ r.ev = "unsubscribe" THEN {}
                   ELSE {V("C02", r.ev \o " event for " \o r.rid \o " which the client does not hold", kfU)}
         res1 == SetRes(r.set) @@ cl1.res
@@ -198,14 +248,14 @@ H_cev(r) ==
                      (IF r.rid \in H THEN {V("C02", "change event on " \o r.rid \o " which is not a model at the client", kfU)} ELSE {}))
             ELSE LET res2 == Put(res1, r.rid, ApplyChange(cur, r.vals))
                      cl2 == Collect(cl1s, res2, cl1.direct)
-                 IN Res(SetConn(o, r.c, cl2), leakV \cup strayV \cup seqV \cup DanglingViol(cl1, res2, cl1.direct, "change event"))
+                 IN Res(SetConn(o, r.c, cl2), leakV \cup strayV \cup seqV \cup DanglingViol(cl1, res2, cl1.direct, "change event", l))
       [] r.ev = "add" ->
             IF ~AddOK(cur, r.idx)
             THEN Res(SetConn(o, r.c, cl1s), leakV \cup strayV \cup seqV \cup
                      (IF r.rid \in H THEN {V("C02", "add event on " \o r.rid \o " inapplicable at the client (kind or index " \o ToString(r.idx) \o ")", kfU)} ELSE {}))
             ELSE LET res2 == Put(res1, r.rid, ApplyAdd(cur, r.idx, r.val))
                      cl2 == Collect(cl1s, res2, cl1.direct)
-                 IN Res(SetConn(o, r.c, cl2), leakV \cup strayV \cup seqV \cup DanglingViol(cl1, res2, cl1.direct, "add event"))
+                 IN Res(SetConn(o, r.c, cl2), leakV \cup strayV \cup seqV \cup DanglingViol(cl1, res2, cl1.direct, "add event", l))
       [] r.ev = "remove" ->
             IF ~RemoveOK(cur, r.idx)
             THEN Res(SetConn(o, r.c, cl1s), leakV \cup strayV \cup seqV \cup
@@ -231,27 +281,48 @@ H_cev(r) ==
             Res(SetConn(o, r.c, cl1s), leakV \cup strayV \cup seqV)
 
 -----------------------------------------------------------------------------
+InvalidateBefore(grant, keys, T) ==
+    [k \in DOMAIN grant |-> IF k \in keys /\ grant[k].l < T /\ grant[k].inv = 0 THEN [grant[k] EXCEPT !.inv = l] ELSE grant[k]]
+
+(* handover line of the trigger a reaccess note is attributed to: inside the  *)
+(* token fan-out loop it is that token event; otherwise the oldest trigger    *)
+(* routed through the cache for this name that has not been attributed to an  *)
+(* earlier note of this subscription (a lower bound of the real one).         *)
+TrigLine(cl, rid) ==
+    IF cl.intok > 0 THEN cl.intok
+    ELSE LET cons == Get(cl.trigc, rid, 0)
+             cand == {t \in SeqToSet(Get(o.ctrig, NameOf(cl, rid), <<>>)) : t > cons}
+         IN IF cand = {} THEN 0 ELSE CHOOSE t \in cand : \A u \in cand : t <= u
+
 H_note(r) ==
     CASE r.kind = "unsend" /\ r.c \in DOMAIN o.conns ->
-            Res(SetConn(o, r.c, [o.conns[r.c] EXCEPT !.unsent = @ \cup {r.rid}, !.stale = @ \cup {r.rid}]), {})
+            Res(SetConn(o, r.c, [o.conns[r.c] EXCEPT !.unsent = @ \cup {r.rid}, !.stale = @ \cup {r.rid}, !.taintU = TRUE]), {})
       [] r.kind = "dispose" /\ r.c \in DOMAIN o.conns ->
             LET cl == o.conns[r.c]
                 w == r.ready + r.access > 0 \/ r.called
-            IN Res(SetConn(o, r.c, [cl EXCEPT !.dispW = IF w THEN @ \cup {r.rid} ELSE @,
+                k == KeyOf(cl, r.rid)
+            IN Res(SetConn(o, r.c, [cl EXCEPT !.dispW = IF w THEN Put(@, r.rid, l) ELSE @,
                                               !.unsent = @ \ {r.rid},
-                                              !.grant = Del(@, KeyOf(cl, r.rid)),
-                                              !.recheck = Del(@, r.rid)]), {})
+                                              !.grant = IF k \in DOMAIN @ THEN Put(@, k, [@[k] EXCEPT !.dis = l]) ELSE @,
+                                              !.recheck = Del(@, r.rid),
+                                              !.trigc = Del(@, r.rid)]), {})
       [] r.kind \in {"reaccess", "reaccessDeferred"} /\ r.c \in DOMAIN o.conns ->
             LET cl == o.conns[r.c]
                 k == KeyOf(cl, r.rid)
-                g2 == IF k \in DOMAIN cl.grant THEN Put(cl.grant, k, [cl.grant[k] EXCEPT !.valid = FALSE]) ELSE cl.grant
-                rc2 == IF r.kind = "reaccess" /\ r.direct > 0 THEN Put(cl.recheck, r.rid, [l |-> l, k |-> 0]) ELSE cl.recheck
-            IN Res(SetConn(o, r.c, [cl EXCEPT !.grant = g2, !.recheck = rc2]), {})
+                T == TrigLine(cl, r.rid)
+                g2 == InvalidateBefore(cl.grant, {k}, T)
+                rc2 == IF r.kind = "reaccess" /\ r.direct > 0 THEN Put(cl.recheck, r.rid, [l |-> T, k |-> 0]) ELSE cl.recheck
+            IN Res(SetConn(o, r.c, [cl EXCEPT !.grant = g2, !.recheck = rc2,
+                                              !.trigc = IF cl.intok > 0 THEN @ ELSE Put(@, r.rid, T)]), {})
       [] r.kind = "token" /\ r.c \in DOMAIN o.conns ->
             LET cl == o.conns[r.c]
-                g2 == IF r.had THEN [k \in DOMAIN cl.grant |-> [cl.grant[k] EXCEPT !.valid = FALSE]] ELSE cl.grant
             IN IF cl.tokq = <<>> THEN Res(o, {})
-               ELSE Res(SetConn(o, r.c, [cl EXCEPT !.tok = Head(cl.tokq), !.tokq = Tail(cl.tokq), !.grant = g2]), {})
+               ELSE LET T == Head(cl.tokq).l
+                        g2 == IF r.had THEN InvalidateBefore(cl.grant, DOMAIN cl.grant, T) ELSE cl.grant
+                    IN Res(SetConn(o, r.c, [cl EXCEPT !.tok = Head(cl.tokq).tok, !.tokq = Tail(cl.tokq), !.grant = g2,
+                                                       !.intok = IF r.had THEN T ELSE 0]), {})
+      [] r.kind = "tokenDone" /\ r.c \in DOMAIN o.conns ->
+            Res(SetConn(o, r.c, [o.conns[r.c] EXCEPT !.intok = 0]), {})
       [] r.kind = "resetres" ->
             Res([o EXCEPT !.refetch = Put(o.refetch, r.key, Get(o.refetch, r.key, 0) + 1)], {})
       [] OTHER -> Res(o, {})
@@ -287,9 +358,13 @@ H_mreq(r) ==
                 THEN {V("C09", "get request for " \o r.n \o " without an established event subscription", "")} ELSE {}
         callV == IF r.t = "call" /\ known
                  THEN LET cl == o.conns[r.c]
-                          g == Get(cl.grant, r.key, [get |-> FALSE, valid |-> FALSE, ok |-> FALSE, call |-> "", calllist |-> <<>>, l |-> 0])
-                      IN IF g.ok /\ g.valid /\ CallAllowed(g.call, g.calllist, r.meth) THEN {}
-                         ELSE {V("C05", "call " \o r.subj \o " forwarded without a valid grant for the method: " \o ToString(g), "")}
+                          g == GrantOf(cl, r.key)
+                          cands == {i \in DOMAIN cl.pend : cl.pend[i].key = r.key /\
+                                      ((cl.pend[i].m = "new" /\ r.meth = "new") \/ (cl.pend[i].m = "call" /\ cl.pend[i].action = r.meth))}
+                          allowed == CallAllowed(g.call, g.calllist, r.meth)
+                          sts == IF cands = {} THEN {GrantState(g, l, allowed)} ELSE {GrantState(g, cl.pend[i].l, allowed) : i \in cands}
+                      IN IF "ok" \in sts THEN {}
+                         ELSE {V("C05", "call " \o r.subj \o " forwarded without a valid grant for the method: " \o ToString(g), IF "kf" \in sts THEN "KF-R" ELSE "")}
                  ELSE {}
         isRefetch == r.t = "get" /\ Get(o.refetch, r.key, 0) > 0
         o1 == [o EXCEPT !.mqpend = Put(o.mqpend, r.k, [t |-> r.t, n |-> r.n, key |-> r.key, c |-> r.c, refetch |-> isRefetch, l |-> l, tok |-> r.tok]),
@@ -338,7 +413,7 @@ H_mres(r) ==
          [] r.t = "access" /\ r.c \in DOMAIN o.conns ->
               LET cl == o.conns[r.c]
                   ok == r.kind = "access"
-                  g == [get |-> r.get, call |-> r.call, calllist |-> r.calllist, ok |-> ok, valid |-> TRUE, l |-> l, tok |-> req.tok]
+                  g == [get |-> r.get, call |-> r.call, calllist |-> r.calllist, ok |-> ok, l |-> l, tok |-> req.tok, inv |-> 0, dis |-> 0, none |-> FALSE]
                   hit == {rid \in DOMAIN cl.recheck : cl.recheck[rid].k = r.k}
                   code == IF ok THEN "system.accessDenied" ELSE r.code
                   owed2 == IF ok /\ r.get THEN cl.owed
@@ -358,12 +433,15 @@ H_mevt(r) ==
                 h2 == IF r.seq > 0
                       THEN Put(o.handed, r.n, Append(HandedOf(r.n), [seq |-> r.seq, l |-> l, sup |-> (r.ev = "change" /\ r.n \in o.window)]))
                       ELSE o.handed
-            IN Res([o EXCEPT !.ann = IF r.n \in DOMAIN o.ann THEN Put(o.ann, r.n, a2) ELSE o.ann, !.handed = h2], {})
+                ct2 == IF r.ev = "reaccess" THEN Put(o.ctrig, r.n, Append(Get(o.ctrig, r.n, <<>>), l)) ELSE o.ctrig
+            IN Res([o EXCEPT !.ann = IF r.n \in DOMAIN o.ann THEN Put(o.ann, r.n, a2) ELSE o.ann, !.handed = h2, !.ctrig = ct2], {})
       [] r.ns = "system" /\ r.ev = "reset" ->
             LET hit == {k \in DOMAIN o.ann : o.ann[k].st = "ld" /\ Get(o.keyn, k, "") \in SeqToSet(r.matchres)}
-            IN Res([o EXCEPT !.window = @ \cup hit], {})
+                ct2 == [n \in DOMAIN o.ctrig \cup SeqToSet(r.matchacc) |->
+                           IF n \in SeqToSet(r.matchacc) THEN Append(Get(o.ctrig, n, <<>>), l) ELSE o.ctrig[n]]
+            IN Res([o EXCEPT !.window = @ \cup hit, !.ctrig = ct2], {})
       [] r.ns = "conn" /\ r.ev = "token" /\ r.c \in DOMAIN o.conns /\ ~r.bad ->
-            Res(SetConn(o, r.c, [o.conns[r.c] EXCEPT !.tokq = Append(@, r.tok)]), {})
+            Res(SetConn(o, r.c, [o.conns[r.c] EXCEPT !.tokq = Append(@, [tok |-> r.tok, l |-> l])]), {})
       [] OTHER -> Res(o, {})
 
 -----------------------------------------------------------------------------
@@ -377,7 +455,7 @@ C01Viol(c, q) ==
             k == KeyOf(cl, rid)
             nk == Get(o.norm, k, k)
             a == AnnOf(o.ann, nk)
-            kf == IF rid \in cl.stale THEN "KF-U" ELSE ""
+            kf == IF cl.taintU THEN "KF-U" ELSE IF cl.taintG THEN "KF-G" ELSE ""
         IN IF e.k \notin {"m", "c"} \/ rid \in cl.exempt THEN {}
            ELSE IF a.st = "del" THEN {}
            ELSE IF a.st = "un" THEN {V("C01", "client " \o c \o " holds " \o rid \o " but the gateway no longer tracks it (no subscription / never announced)", kf)}
@@ -388,7 +466,8 @@ C01Viol(c, q) ==
 C07Viol(c) ==
     LET cl == o.conns[c]
     IN { V("C07", "request " \o ToString(i) \o " (" \o cl.pend[i].m \o " " \o cl.pend[i].rid \o ") of " \o c \o " was never answered",
-           IF cl.pend[i].rid \in cl.dispW \/ (cl.pend[i].m \in {"call", "auth", "new"} /\ cl.dispW # {}) THEN "KF-H" ELSE "")
+           IF (cl.pend[i].rid \in DOMAIN cl.dispW /\ cl.dispW[cl.pend[i].rid] > cl.pend[i].l)
+              \/ (cl.pend[i].m \in {"call", "auth", "new"} /\ \E x \in DOMAIN cl.dispW : cl.dispW[x] > cl.pend[i].l) THEN "KF-H" ELSE "")
          : i \in DOMAIN cl.pend }
 
 C08Viol(c, q) ==
@@ -400,7 +479,7 @@ C08Viol(c, q) ==
             want == Get(cl.nsub, rid, 0)
         IN IF have = want THEN {}
            ELSE {V("C08", "connection " \o c \o " holds " \o ToString(have) \o " direct subscriptions on " \o rid \o ", responses account for " \o ToString(want),
-                   IF rid \in cl.dispW THEN "KF-H" ELSE "")}
+                   IF rid \in DOMAIN cl.dispW \/ rid \in cl.hUnsub THEN "KF-H" ELSE "")}
         : rid \in rids }
 
 C03EndViol(c) ==
@@ -413,7 +492,7 @@ C03EndViol(c) ==
             lo == IF p.last > 0 THEN p.last ELSE 0
             missing == {h.seq : h \in {x \in after : x.seq > lo}}
         IN IF QueryOf(cl, rid) # "" \/ rid \in cl.exempt \/ cl.res[rid].k = "e" \/ missing = {} THEN {}
-           ELSE {V("C03", "client " \o c \o " holds " \o rid \o " but never received events " \o ToString(missing), IF rid \in cl.unsent \cup cl.stale THEN "KF-U" ELSE "")}
+           ELSE {V("C03", "client " \o c \o " holds " \o rid \o " but never received events " \o ToString(missing), IF cl.taintU THEN "KF-U" ELSE IF cl.taintG THEN "KF-G" ELSE "")}
         : rid \in H \cap DOMAIN cl.per \cap DOMAIN cl.res }
 
 C06EndViol(c, q) ==
